@@ -5,7 +5,9 @@ Gallina terms by coq_emit.py — a path independent of driver.ml's parser — in
 `Eval vm_compute in (applied = n && same_cells digest expected)` must print true for every case."""
 import os
 import re
+import shutil
 import subprocess
+import tempfile
 
 import common
 import coq_emit
@@ -14,8 +16,10 @@ import coq_emit
 def crosscheck(cases, model_bin=None, coq_dir=None, workdir=None, timeout=900):
     model_bin = model_bin or common.MODEL_BIN
     coq_dir = coq_dir or os.path.join(common.VERIF, "coq")
-    workdir = workdir or os.path.join(common.VERIF, "work", "vmx")
-    os.makedirs(workdir, exist_ok=True)
+    # a private directory per call: two checks may run at the same time
+    base = workdir or os.path.join(common.VERIF, "work")
+    os.makedirs(base, exist_ok=True)
+    workdir = tempfile.mkdtemp(prefix="vmx_", dir=base)
     sexps = []
     for c in cases:
         d = dict(c, dump="last", digest=True)
@@ -40,6 +44,7 @@ def crosscheck(cases, model_bin=None, coq_dir=None, workdir=None, timeout=900):
     open(path, "w").write(txt)
     p = subprocess.run(["coqc", "-Q", coq_dir, "BT", "-w", "-abstract-large-number", path], capture_output=True, text=True,
                        timeout=timeout, cwd=workdir)
+    shutil.rmtree(workdir, ignore_errors=True)
     res = re.findall(r"=\s*(true|false)", p.stdout)
     ok = p.returncode == 0 and len(res) == len(cases)
     bad = [cases[i]["name"] for i, r in enumerate(res) if r != "true"]
